@@ -908,8 +908,27 @@ impl Sim for C17 {
       ops.push(json!({"op": "bulk", "n": 9 + rng.index(16)}));
     }
     let has = |kinds: &Vec<&str>, k: &str| kinds.iter().any(|x| *x == k);
+    // what was stored at the last deploy: a text that has gone since then left evaluators behind that must be gone
+    // too - a *takeover* stores another text with the name (or the namespace) of such a text
+    let mut at_last_deploy: Vec<&str> = vec![];
     for _ in 0..len {
-      let mut op = if deployed && has(&kinds, "eval") && rng.chance(1, 2) {
+      let gone: Vec<&str> = at_last_deploy.iter().copied().filter(|k| !stored.contains(k)).collect();
+      let takeover: Option<Value> = if !gone.is_empty() && (has(&kinds, "add") || has(&kinds, "replace")) && rng.chance(1, 2) {
+        let g = *rng.pick(&gone);
+        let (gns, gname) = keys_of(g);
+        let by_name = rng.chance(2, 3);
+        let candidates: Vec<&str> = ALPHA_KEYS.iter().copied().filter(|k| *k != g && if by_name { keys_of(k).1 == gname } else { keys_of(k).0 == gns }).collect();
+        if candidates.is_empty() {
+          None
+        } else {
+          Some(json!({"op": if has(&kinds, "add") && (!has(&kinds, "replace") || rng.chance(2, 3)) { "add" } else { "replace" }, "m": *rng.pick(&candidates)}))
+        }
+      } else {
+        None
+      };
+      let mut op = if let Some(op) = takeover {
+        op
+      } else if deployed && has(&kinds, "eval") && rng.chance(1, 2) {
         let m = if !stored.is_empty() && rng.chance(4, 5) { *rng.pick(&stored) } else { *rng.pick(&models) };
         json!({"op": "eval", "m": m, "inv": if rng.chance(1, 12) { "no such invocable" } else { "d" }})
       } else if !deployed && !stored.is_empty() && has(&kinds, "deploy") && rng.chance(1, 3) {
@@ -957,7 +976,10 @@ impl Sim for C17 {
           stored.clear();
           deployed = false;
         }
-        "deploy" => deployed = true,
+        "deploy" => {
+          deployed = true;
+          at_last_deploy = stored.clone();
+        }
         "restart" => {
           stored.clear();
           for f in parr(&op, "files") {
@@ -969,6 +991,7 @@ impl Sim for C17 {
             }
           }
           deployed = true;
+          at_last_deploy = stored.clone();
         }
         _ => {}
       }
